@@ -261,7 +261,8 @@ def mphys_groups(rep, tier, timeout):
             continue
         obs += idents("wrapper %s sec_forces" % x["name"], got,
                       ns[x["name"] + "_sec_forces"], meta={"family": "MPhys solver group returns the native sectional forces"})
-    run_obligations(rep, "MPhys AeroSolverGroup vs native states", obs, timeout, levels=(1, 2), family=lambda ob: "MPhys: " + ob.meta["family"])
+    run_obligations(rep, "MPhys AeroSolverGroup vs native states", obs, timeout, levels=(1, 2), family=lambda ob: "MPhys: " + ob.meta["family"],
+                    replay=lambda ob, env: replay_mphys(ss))
 
 
 def run(tier, seed, only=None):
